@@ -125,7 +125,7 @@ fn c07_q_ignorable_chunks_and_srgb_profile() {
 #[kani::unwind(8)]
 #[kani::stub(alloc::fmt::format, crate::vklib::empty_format)]
 #[kani::stub(std::hash::RandomState::new, crate::vklib::fixed_random_state)]
-fn c07_q_bytes_after_last_frame_unread() {
+fn c07_t_bytes_after_last_frame_unread() {
     let mut f: [u8; 160] = kani::any();
     f[4] = 0xE0;
     f[5] = 0xA5;
